@@ -134,18 +134,21 @@ the witness must behave as documented).
 * `sizeNullJumps` (F-C03-1): `JumpIfNull` after `Size` when the pattern has an ellipsis;
 * `nestedLast`    (F-C03-3): `has_last_pattern && is_last_pattern` is passed down to nested lists;
 * `accessFalls`   (F-C03-4): `TryAccess` on a value without `.` access jumps instead of raising;
-* `rangeSlices`   (F-C03-5): `SliceFrom`/`SliceTo` on a bounded range yield the sub-range. -/
+* `rangeSlices`   (F-C03-5): `SliceFrom`/`SliceTo` on a bounded range yield the sub-range;
+* `subjectCopied` (F-C03-2, /repo 65de4a1): `compile_match` copies a subject that lives in a
+  local's register into a fresh temporary, so patterns destructure a private copy. -/
 structure Cfg where
   sizeNullJumps : Bool
   nestedLast : Bool
   accessFalls : Bool
   rangeSlices : Bool
+  subjectCopied : Bool
   deriving DecidableEq, Repr, Inhabited
 
 /-- the tree the findings were recorded on -/
-def Cfg.recorded : Cfg := ⟨false, false, false, false⟩
+def Cfg.recorded : Cfg := ⟨false, false, false, false, false⟩
 /-- every repair applied -/
-def Cfg.repaired : Cfg := ⟨true, true, true, true⟩
+def Cfg.repaired : Cfg := ⟨true, true, true, true, true⟩
 
 /-! ### the VM operations a match uses, on every kind of value -/
 
@@ -466,7 +469,7 @@ inductive Subj where
 
 def evalMatch (F : FloatOps) (C : Cfg) (sub : Subj) (arms : List Arm) (ρ : Env) : Res :=
   match sub with
-  | .var x => evalArms F C arms 0 (.reg x) ρ
+  | .var x => evalArms F C arms 0 (if C.subjectCopied then .tmp (ρ x) else .reg x) ρ
   | .expr v => let r := evalArms F C arms 0 (.tmp v) ρ; ⟨r.out, .subj :: r.trace⟩
   | .multi vs => let r := evalArms F C arms 0 (.tmp (.tuple vs)) ρ; ⟨r.out, .subj :: r.trace⟩
 
